@@ -409,9 +409,14 @@ class BaseClientHandler:
         because they are no longer listening to the mailbox (but they will
         empty the list of pending expunges.
         """
+        # NOTE: The list is emptied before we push: while we wait for the client
+        #       to take what we send it other commands may queue up further
+        #       notifications, which must not be thrown away.
+        #
         if self.pending_notifications:
-            await self.client.push(*self.pending_notifications)
+            notifications = self.pending_notifications
             self.pending_notifications = []
+            await self.client.push(*notifications)
 
     ##################################################################
     #
